@@ -14,9 +14,9 @@ CONFIGS = [dict(jit=True), dict(jit=False)]
 RULE = ('random trajectory sets (1-6 trajectories, lengths incl. 1 and below the lag, all label '
         'alphabets, uniform dtypes int8..int64, container forms) x lag 1..12; thorough adds all sets '
         'of <= 2 trajectories over 3 labels with total length <= 8 x lag 1..4. Compared: states and '
-        'every T[i,j] bit-exactly against float(C_ij/S_i) of the exact model, function and method. '
+        'every T[i,j] within 1e-12 of the exact C_ij/S_i of the model, function and method. '
         'Non-trivial: >= 2 non-zero rows in C and (a trajectory not longer than the lag or >= 2 trajectories).')
-TRUSTED = ['IEEE-754 correctly rounded division (exact comparison of T with float(C_ij/S_i))',
+TRUSTED = ['float division within 1e-12 of the exact quotient (measured on every case, not proved)',
            'numba typed-list conversion is exercised, not modelled']
 ASSUMPTIONS = ['labels within +-2^29', 'every trajectory has at least one frame']
 BATCH = 5000
@@ -130,8 +130,8 @@ def judge(case, ibc, answers):
                 P('impl-vs-spec', '%s: states %s, expected ascending distinct labels %s' % (tag, s['v'], st))
             elif T['shape'] != [n, n]:
                 P('impl-vs-spec', '%s: shape %s' % (tag, T['shape']))
-            elif T['v'] != exp:
-                bad = [(k // n, k % n) for k in range(n * n) if T['v'][k] != exp[k]][:3]
+            elif not C.hexes_close(T['v'], spec_T):
+                bad = [(k // n, k % n) for k in range(n * n) if not C.hexes_close([T['v'][k]], [spec_T[k // n][k % n]])][:3]
                 P('impl-vs-spec', '%s: T differs from C_ij/S_i at %s: got %s expected %s' % (
                     tag, bad, [float.fromhex(T['v'][i * n + j]) for i, j in bad],
                     [str(spec_T[i][j]) for i, j in bad]))
